@@ -112,7 +112,7 @@ class C19(PropBase):
     pid = "C19"
     coq_dirs = ["Base", "C08", "C19"]
     bins = ["c19"]
-    translators = ["bitflip_consts.py", "c19_check.py"]
+    translators = ["bitflip_consts.py", "c19_check.py", "c19_src.py"]
     rule = ("T cases call bitflip::try_bit_flips directly (address, source register, bit range, amd64 context or none, "
             "memory-info list or Linux maps with 0..64 regions of every permission mix, memory operation); P cases run "
             "process_minidump on a synthesized dump (x86/amd64/arm64 x Windows/Linux, exception code/parameters, optional "
